@@ -6,7 +6,7 @@ use crate::shim as kani;
 use core::cell::Cell;
 use daachorse::MatchKind;
 
-crate::lookup! { bw_find, bw_overlapping, bw_overlapping_full, bw_no_suffix, cw_find, cw_overlapping, cw_overlapping_full, cw_no_suffix }
+crate::lookup! { bw_find, bw_overlapping, bw_overlapping_full, bw_no_suffix, cw_find, cw_overlapping, cw_overlapping_full, cw_no_suffix, bw_owned_find, bw_owned_overlapping, bw_owned_no_suffix }
 
 pub struct Src<'a, const L: usize> {
     data: [u8; L],
@@ -117,3 +117,49 @@ lazy_cw!(cw_find, find_iter_from_iter, find_iter, 3, 2);
 lazy_cw!(cw_overlapping, find_overlapping_iter_from_iter, find_overlapping_iter, 3, 1);
 lazy_cw!(cw_overlapping_full, find_overlapping_iter_from_iter, find_overlapping_iter, 5, 2);
 lazy_cw!(cw_no_suffix, find_overlapping_no_suffix_iter_from_iter, find_overlapping_no_suffix_iter, 3, 2);
+
+// S-own: the slice entry points take their haystack BY VALUE (`P: AsRef<[u8]>`), so an owned haystack with inline
+// storage (an array) is moved into the iterator and then moved again with it.  The iterator is built in a callee
+// and returned (its frame is dead afterwards, which is what makes a pointer into the moved-from value visible to
+// CBMC's pointer checks); its matches must equal those of the byte-iterator entry point over the same bytes.
+macro_rules! owned_bw {
+    ($name:ident, $helper:ident, $from_iter:ident, $slice:ident) => {
+        #[inline(never)]
+        fn $helper<'a>(pma: &'a daachorse::DoubleArrayAhoCorasick<u32>, h: [u8; 2]) -> impl Iterator<Item = daachorse::Match<u32>> + 'a {
+            pma.$slice(h)
+        }
+        // any() order: table (see i_bw::sym_table), h, len
+        #[cfg_attr(kani, kani::proof)]
+        #[cfg_attr(kani, kani::unwind(6))]
+        pub fn $name() {
+            let (pma, _raw, _rawo) = crate::i_bw::sym_table::<2, 1>(MatchKind::Standard, false);
+            let (h, _len) = crate::i_bw::sym_haystack::<2, 2>();
+            let mut a = $helper(&pma, h);
+            let mut b = pma.$from_iter(h.iter().copied());
+            let mut k = 0;
+            let mut ended = false;
+            let mut seen = 0;
+            while k < 4 {
+                if !ended {
+                    let x = a.next();
+                    let y = b.next();
+                    assert!(x == y, "S-own: owned-haystack entry point differs from the byte-iterator entry point");
+                    if x.is_none() {
+                        ended = true;
+                    } else {
+                        seen += 1;
+                    }
+                }
+                k += 1;
+            }
+            assert!(ended, "S-own: more matches than the harness budget");
+            kani::cover!(seen >= 1, "S-own: a match was returned");
+            core::mem::forget(a);
+            core::mem::forget(b);
+            core::mem::forget(pma);
+        }
+    };
+}
+owned_bw!(bw_owned_find, own_find, find_iter_from_iter, find_iter);
+owned_bw!(bw_owned_overlapping, own_ovl, find_overlapping_iter_from_iter, find_overlapping_iter);
+owned_bw!(bw_owned_no_suffix, own_nosuf, find_overlapping_no_suffix_iter_from_iter, find_overlapping_no_suffix_iter);
